@@ -1,5 +1,6 @@
 import EpModel.Props.C03
 import EpModel.Lemmas.SpecSane
+import EpModel.Lemmas.StructSlice
 /-
   C07 — length and content errors describe the real fault.
 
@@ -12,11 +13,12 @@ import EpModel.Lemmas.SpecSane
   MACsec short length – known findings F9/F12, pinned by the crate's own tests).  The full statement is
   `FullStatement`; `full_statement_false_*` prove, with concrete packets, that it does not hold of the
   model (the checker replays these packets against the crate and prints them as KNOWN-FINDING).
-  Lax stop errors and the PacketHeaders/IpHeaders families are covered by the correspondence + oracle
-  (tools/epcheck/props/c07.py), not by a theorem.
+  The strict struct-decoding doors (PacketHeaders::from_ethernet_slice / from_ether_type / from_ip_slice) are
+  covered through C04 (`headers_len_error_describes_fault_partial`).  Lax stop errors and the IpHeaders
+  family are covered by the correspondence + oracle (tools/epcheck/props/c07.py), not by a theorem.
 -/
 namespace EpModel.Props.C07
-open EpModel EpModel.Dec EpModel.Spec EpModel.Lemmas.Refine EpModel.Props.C03
+open EpModel EpModel.Dec EpModel.Spec EpModel.Lemmas.Refine EpModel.Props.C03 EpModel.Lemmas.StructSlice
 
 /-- C07 for one reported length error `e`, where `f` is the fault the bytes really have. -/
 structure Describes (e : LenError) (f : Fault) : Prop where
@@ -192,6 +194,65 @@ theorem full_statement_is_false : ¬ FullStatement := by
   rw [hdec] at hf''
   cases hf''
   exact hnd hd
+
+/-! ### the struct-decoding family (through C04: its rejections are the slicing family's, error included) -/
+
+/-- the struct-decoding doors that correspond to the strict slicing doors -/
+def Entry.runHeaders (b : Bytes) : Entry → Option (Except PErr Headers)
+  | .eth => some (phFromEthernet (memOf b) b.length)
+  | .sll => none
+  | .etherType et => some (phFromEtherType (memOf b) et 0 b.length)
+  | .ip => some (phFromIp (memOf b) b.length)
+
+/-- a rejection by PacketHeaders is the rejection SlicedPacket gives, error included (C04) -/
+theorem headers_error_is_slicing_error (x : Entry) (b : Bytes) (e : PErr) (hs : ¬ x.shortV4 b)
+    (h : x.runHeaders b = some (.error e)) : x.run b = .error e := by
+  cases x with
+  | sll => simp [Entry.runHeaders] at h
+  | eth =>
+    simp only [Entry.runHeaders, Option.some.injEq] at h
+    have hv := from_ethernet_agree (memOf b) b.length
+    rw [h] at hv
+    simp only [Entry.run]
+    cases hsl : slicedFromEthernet (memOf b) b.length with
+    | ok p => rw [hsl] at hv; simp at hv
+    | error e' => rw [hsl] at hv; simp only at hv; rw [hv]
+  | etherType et =>
+    simp only [Entry.runHeaders, Option.some.injEq] at h
+    have hv := from_ether_type_agree (memOf b) et b.length
+    rw [h] at hv
+    simp only [Entry.run]
+    cases hsl : slicedFromEtherType (memOf b) et b.length with
+    | ok p => rw [hsl] at hv; simp [Verdict] at hv
+    | error e' => rw [hsl] at hv; simp only [Verdict] at hv; rw [hv, lenAddOff_zero]
+  | ip =>
+    simp only [Entry.runHeaders, Option.some.injEq] at h
+    simp only [Entry.shortV4] at hs
+    simp only [Entry.run]
+    rcases from_ip_agree (memOf b) b.length with ⟨h4, h20, _, _⟩ | hv
+    · -- fewer than 20 bytes with an IPv4 nibble: excluded unless the input is empty
+      have : b.length = 0 := by
+        by_cases h0 : 0 < b.length
+        · exact absurd ⟨h4, h0, h20⟩ hs
+        · omega
+      -- the empty input: both doors report the same error
+      have hn : phFromIp (memOf b) b.length = .error e := h
+      rw [this] at hn ⊢
+      unfold phFromIp ipHeadersFromSlice ipDispatchHeader at hn
+      simp at hn
+      unfold slicedFromIp Cur.sliceIp ipSliceFromSlice ipDispatchHeader
+      simp [← hn, lenAddOff, LenError.addOffset, Cur.new]
+    · rw [h] at hv
+      cases hsl : slicedFromIp (memOf b) b.length with
+      | ok p => rw [hsl] at hv; simp [Verdict] at hv
+      | error e' => rw [hsl] at hv; simp only [Verdict] at hv; rw [hv, lenAddOff_zero]
+
+/-- C07 for the struct-decoding family (PacketHeaders::from_ethernet_slice / from_ether_type /
+    from_ip_slice): its length errors describe the real fault, with the same two exceptions -/
+theorem headers_len_error_describes_fault_partial (x : Entry) (b : Bytes) (e : LenError) (hs : ¬ x.shortV4 b)
+    (h : x.runHeaders b = some (.error (.len e))) :
+    ∃ f, Spec.decode x.start (memOf b) b.length = .error f ∧ DescribesPartial e f :=
+  len_error_describes_fault_partial x b e hs (headers_error_is_slicing_error x b (.len e) hs h)
 
 /-- every strict UDP slice lies inside the slice it was cut from. -/
 theorem udp_within (g : Mem) (o l : Nat) (w : Win) (h : udpFromSlice g o l = .ok w) :
